@@ -135,8 +135,9 @@ fn cmd_drive(args: &[String]) -> i32 {
         "distinct_entropy_seeds": st.entropy_seeds.len(), "distinct_layouts": st.layouts.len(),
         "distinct_keys": st.keys_seen.len(), "distinct_contexts": st.contexts.len(), "distinct_nontrivial_contexts": nontrivial,
         "environment_seams_consulted_by_the_code": {"getrandom_calls": st.seam_getrandom, "clock_calls": st.seam_clock, "getpid_calls": st.seam_getpid,
-            "getenv_calls": st.seam_getenv, "env_names": st.seam_names.iter().collect::<Vec<_>>(), "env_names_given_seeded_values": corpus.env_names.iter().map(|(n, c)| json!({"name": n, "candidate_values": c})).collect::<Vec<_>>()},
+            "getenv_calls": st.seam_getenv, "threads_created_by_the_code": st.seam_threads_surplus, "env_names": st.seam_names.iter().collect::<Vec<_>>(), "env_names_given_seeded_values": corpus.env_names.iter().map(|(n, c)| json!({"name": n, "candidate_values": c})).collect::<Vec<_>>()},
         "sessions_whose_identical_plan_answered_differently": st.racy_sessions,
+        "sessions_with_same_answers_but_other_addresses_while_the_code_ran_threads_of_its_own": st.sut_threaded_sessions,
         "selfchecked_processes": st.selfchecked, "nondeterministic_sessions": st.nondeterministic,
         "errors": st.errors.iter().take(5).collect::<Vec<_>>(), "error_count": st.errors.len(),
         "divergent_sessions": st.divergences.len(),
